@@ -2,7 +2,8 @@
   `bp.util.BundleContainer` as the agent uses it: the per-bundle action record, the block list with
   its derived block-number map / type index lists, `get_block_num`, `add_block` (insert before the
   last block), `remove_block` (by number) and the BTSD cache of `CanonicalBlock`
-  (`ensure_block_type_specific_data` does nothing when `fields['btsd']` is set).
+  (`ensure_block_type_specific_data` does nothing when `fields['btsd']` is set; `_do_fwd` deletes
+  the cache of a hop-count block after bumping its count).
   Import-free, executable. Mirrors the code that exists, quirks included.
 -/
 import DtnVerif.Model.Bundle
@@ -40,7 +41,7 @@ def typeHop : Nat := 10
     whether dissection attached the payload class bound to the type code (a parameter: scapy's
     BTSD parser is not modelled); `hop` is the in-memory `HopCountBlock` payload;
     `adminReenc` is what `bytes(blk.payload)` yields for an `AdminRecord` payload (parameter),
-    which `Bundle._update_from_admin` writes over the BTSD on every build. -/
+    which `Bundle._update_from_admin` writes into the BTSD only when the cache is absent. -/
 structure Blk where
   c : Canonical
   parsed : Bool := true
@@ -48,17 +49,8 @@ structure Blk where
   adminReenc : Option Bytes := none
   deriving Repr, DecidableEq, Inhabited
 
-/-- Key of the payload-class index (`type(blk.payload)`). -/
-inductive Cls where
-  | prev | age | hop | other
-  deriving DecidableEq, Repr
-
-def Blk.cls (b : Blk) : Cls :=
-  if !b.parsed then .other
-  else if b.c.typeCode == typePrevNode then .prev
-  else if b.c.typeCode == typeAge then .age
-  else if b.c.typeCode == typeHop then .hop
-  else .other
+/-- member of `ctr.block_type(HopCountBlock)`: a type-10 block whose BTSD dissected -/
+def Blk.isHop (b : Blk) : Bool := b.parsed && b.c.typeCode == typeHop
 
 def Blk.num (b : Blk) : Nat := b.c.blockNum
 
@@ -92,18 +84,10 @@ def loadOk (blocks : List Blk) : Bool :=
   let ns := blocks.map Blk.num
   decide (ns.Nodup) && !ns.contains 0
 
-/-- Numbers of the blocks in the payload-class list `ctr.block_type(cls)`, in block order
-    (the lists are rebuilt by `reload` in block order). -/
-def Ctr.clsNums (c : Ctr) (k : Cls) : List Nat :=
-  (c.blocks.filter (fun b => b.cls == k)).map Blk.num
-
-/-- What `for x in L: L.remove(x)` visits: the list iterator advances by index while the list
-    shrinks under it, so it sees the elements at even positions of the original list. This is
-    the loop shape of `for blk in ctr.block_type(X): ctr.remove_block(blk)`. -/
-def evens {α : Type} : List α → List α
-  | [] => []
-  | [a] => [a]
-  | a :: _ :: r => a :: evens r
+/-- Numbers of the blocks in the type-code list `ctr.block_type(t)`, in block order (the lists
+    are rebuilt by `reload` in block order). `_do_fwd` iterates over a copy of it. -/
+def Ctr.typeNums (c : Ctr) (t : Nat) : List Nat :=
+  (c.blocks.filter (fun b => b.c.typeCode == t)).map Blk.num
 
 /-- `remove_block(blk)`: drop the first block with that number. -/
 def Ctr.removeNum (c : Ctr) (n : Nat) : Ctr :=
@@ -130,34 +114,31 @@ def maxOf (l : List Nat) : Nat := l.foldr max 0
     The fuel `maxOf used + 1` is enough for the loop to end on a free number. -/
 def Ctr.getBlockNum (c : Ctr) : Nat := nextFree c.used (maxOf c.used + 1) (c.lastNum + 1)
 
-/-- `add_block(CanonicalBlock() / payload)` for a fresh extension block. `preset` is the block
-    number already sitting in `overloaded_fields` (see `St.stickyPrev`); when absent
-    `_fix_blk_num` draws one with `get_block_num`. A number already in `_block_num` raises
-    (`none`). Returns the container and the number used. -/
-def Ctr.addBlock (c : Ctr) (typeCode : Nat) (preset : Option Nat) (btsd : Bytes) :
-    Option (Ctr × Nat) :=
-  let (n, last) := match preset with
-    | some n => (n, c.lastNum)
-    | none => (c.getBlockNum, c.getBlockNum)
+/-- `add_block(CanonicalBlock() / payload)` for a fresh extension block: `_fix_blk_num` draws a
+    number with `get_block_num` and sets it on the block; a number already in `_block_num` would
+    raise (`none`; `getBlockNum_fresh` shows it never happens). -/
+def Ctr.addBlock (c : Ctr) (typeCode : Nat) (btsd : Bytes) : Option (Ctr × Nat) :=
+  let n := c.getBlockNum
   if c.used.contains n then none
   else
     let blk : Blk := { c := { typeCode := typeCode, blockNum := n, flags := 0, crcType := 0,
                               btsd := some btsd, crc := none } }
-    some ({ c with blocks := insertBeforeLast blk c.blocks, lastNum := last }, n)
+    some ({ c with blocks := insertBeforeLast blk c.blocks, lastNum := n }, n)
 
-/-- `blk.payload.count += 1` on every parsed hop-count block: the in-memory payload only. -/
+/-- `blk.payload.count += 1; blk.delfieldval('btsd')` on every dissected hop-count block: the
+    in-memory count is bumped and the cached encoding dropped, so that it is regenerated. -/
 def bumpHop (b : Blk) : Blk :=
-  if b.cls == .hop then { b with hop := b.hop.map (fun p => (p.1, p.2 + 1)) } else b
+  if b.isHop then { b with hop := b.hop.map (fun p => (p.1, p.2 + 1)), c := { b.c with btsd := none } }
+  else b
 
-/-- `ensure_block_type_specific_data` followed by `_update_from_admin`: the cached BTSD wins over
-    the in-memory payload; it is regenerated only when absent. An `AdminRecord` payload is
-    re-encoded over it. -/
+/-- `ensure_block_type_specific_data` / `_update_from_admin`: the cached BTSD wins; only when it
+    is absent is it regenerated from the in-memory payload (an `AdminRecord`, or the hop count). -/
 def Blk.wireBtsd (b : Blk) : Option Bytes :=
-  match b.adminReenc with
-  | some r => some r
+  match b.c.btsd with
+  | some d => some d
   | none =>
-    match b.c.btsd with
-    | some d => some d
+    match b.adminReenc with
+    | some r => some r
     | none => b.hop.map (fun p => encHopCount p.1 p.2)
 
 /-- CRC oracle: the next supplied value for a block with a CRC type, `None` otherwise
